@@ -1,4 +1,5 @@
 import QuiverModel.Lemmas.Exec.Select
+import QuiverModel.Core.Types.Compat
 /-
 C05 — Select follows its documented semantics: priority, filters, timeouts. Property theorems only
 (every theorem here is `C05.<name>`; helper lemmas live in Lemmas/Exec/Select.lean).
@@ -728,6 +729,62 @@ def exExec : Exec Nat :=
 
 example : exExec.nextTimeoutMs = some 7 ∧ (exExec.checkExpiredTimeouts 6).queue = [] ∧
     (exExec.checkExpiredTimeouts 7).queue = [0] ∧ (exExec.checkExpiredTimeouts 7).selecting = [] := by decide
+
+
+/-! ## `typeOk` is C08's `check_message_compatible` on the tables of the LAST program update
+
+The abstract predicate `typeOk` of a receive source is, in the executor, `check_message_compatible`:
+the concrete tag of the message looked up in `function_param_compatibility` /
+`builtin_param_compatibility` — C08's `QM.Types.checkMessage` (Core/Types/Compat.lean, imported
+read-only; `C08.mailbox_filter_spec`, `C08.compatSet_spec` say what the tables contain). The tables are
+recomputed for the WHOLE merged program and REPLACED by every `update_program`, so a receive function
+loaded by an earlier update accepts concrete types that only a later update introduced. -/
+
+/-- the receive source the executor builds from a function / builtin value, against the tables
+`fp` / `bp` currently installed; `tagOf` = `get_concrete_type` -/
+def tableSource (fp bp : List (List QM.Types.CTag)) (tagOf : V → QM.Types.CTag) (src : QM.Types.Source)
+    (filter : Option (V → FilterRes V)) : Source V :=
+  .receive (fun m => QM.Types.checkMessage fp bp (tagOf m) src) filter
+
+/-- a type-only receive function with a table entry takes exactly the messages whose concrete tag is in
+its compatible set -/
+theorem accepts_by_table (fp bp : List (List QM.Types.CTag)) (tagOf : V → QM.Types.CTag) (f : Nat)
+    (set : List QM.Types.CTag) (h : fp[f]? = some set) (m : V) :
+    accepts (fun m => QM.Types.checkMessage fp bp (tagOf m) (.function f)) none m = set.contains (tagOf m) := by
+  simp [accepts, QM.Types.checkMessage, h]
+
+/-- … so the select yields the EARLIEST mailbox message whose tag is in the set installed by the last
+update (when no earlier source is ready) -/
+theorem spec_takes_earliest_by_table (fp bp : List (List QM.Types.CTag)) (tagOf : V → QM.Types.CTag) (f : Nat)
+    (set : List QM.Types.CTag) (h : fp[f]? = some set) (mb : List V) (results : Nat → Option (Res V))
+    (start now : Nat) (rest : List (Source V)) (i : Nat) (m : V)
+    (hfirst : firstIdx (fun m => set.contains (tagOf m)) mb = some i) (hm : mb[i]? = some m) :
+    selectSpec mb results start now (tableSource fp bp tagOf (.function f) none :: rest) = .yields (.value m) (some i) := by
+  have hacc : accepts (fun m => QM.Types.checkMessage fp bp (tagOf m) (.function f)) none =
+      (fun m => set.contains (tagOf m)) := funext (accepts_by_table fp bp tagOf f set h)
+  simp only [selectSpec, tableSource, hacc, hfirst, hm]
+
+/-- an update can only be observed through the tables: if the new set of the function contains the old
+one (types are only ever added), every message accepted before the update is accepted after it -/
+theorem acceptance_survives_update (fp bp fp' bp' : List (List QM.Types.CTag)) (tagOf : V → QM.Types.CTag)
+    (f : Nat) (set set' : List QM.Types.CTag) (h : fp[f]? = some set) (h' : fp'[f]? = some set')
+    (hsub : ∀ c ∈ set, c ∈ set') (m : V)
+    (hacc : QM.Types.checkMessage fp bp (tagOf m) (.function f) = true) :
+    QM.Types.checkMessage fp' bp' (tagOf m) (.function f) = true := by
+  simp only [QM.Types.checkMessage, h, h', List.contains_iff_mem] at hacc ⊢
+  exact hsub _ hacc
+
+/-- Witness of seeded/C05-4 (stale tables): function 0 was loaded by update 1 with the set `[tuple 3]`;
+update 2 introduces tuple 7, compatible with its (partial) parameter type, and a message of that type
+arrives. With the tables of update 2 the select takes it; with the stale entry of update 1 (only the
+delta shipped) the message is skipped and the select waits. -/
+theorem stale_table_skips_message :
+    selectSpec [(7 : Nat)] (fun _ => none) 0 0
+      [tableSource [[.tuple 3, .tuple 7]] [] (fun m => QM.Types.CTag.tuple m) (.function 0) none]
+      = .yields (.value 7) (some 0) ∧
+    selectSpec [(7 : Nat)] (fun _ => none) 0 0
+      [tableSource [[.tuple 3]] [] (fun m => QM.Types.CTag.tuple m) (.function 0) none]
+      = .notReady := by decide
 
 
 end C05
